@@ -610,6 +610,28 @@ func getASN(m *bgp.BGPOpen) uint32 {
 	return asn
 }
 
+// negotiateTimers sets the hold time and keepalive interval of the session.
+//
+// RFC 4271 P.13
+// a BGP speaker MUST calculate the value of the Hold Timer
+// by using the smaller of its configured Hold Time and the Hold Time
+// received in the OPEN message.
+func negotiateTimers(conf *oc.Neighbor, body *bgp.BGPOpen) {
+	holdTime := float64(body.HoldTime)
+	myHoldTime := conf.Timers.Config.HoldTime
+	if holdTime > myHoldTime {
+		conf.Timers.State.NegotiatedHoldTime = myHoldTime
+	} else {
+		conf.Timers.State.NegotiatedHoldTime = holdTime
+	}
+
+	keepalive := conf.Timers.Config.KeepaliveInterval
+	if n := conf.Timers.State.NegotiatedHoldTime; n < myHoldTime {
+		keepalive = n / 3
+	}
+	conf.Timers.State.KeepaliveInterval = keepalive
+}
+
 func (fsm *fsm) stateChange(nextState bgp.FSMState, reason *fsmStateReason) {
 	fsm.lock.Lock()
 	conf := fsm.pConf.ReadCopy()
@@ -624,6 +646,11 @@ func (fsm *fsm) stateChange(nextState bgp.FSMState, reason *fsmStateReason) {
 		slog.String("reason", reason.String()))
 
 	switch nextState {
+	case bgp.BGP_FSM_OPENCONFIRM:
+		// RFC 4271 8.2.2: on receipt of the OPEN the hold timer is set to the
+		// negotiated value and the keepalive timer started - OpenConfirm must
+		// not run with the timers of an earlier session (or none)
+		negotiateTimers(&conf, fsm.recvOpen.Body.(*bgp.BGPOpen))
 	case bgp.BGP_FSM_ESTABLISHED:
 		remoteTCP := fsm.conn.RemoteAddr().(*net.TCPAddr)
 		remoteAddr, _ := netip.AddrFromSlice(remoteTCP.IP)
@@ -679,24 +706,7 @@ func (fsm *fsm) stateChange(nextState bgp.FSMState, reason *fsmStateReason) {
 		_, peerExt := fsm.capMap[bgp.BGP_CAP_EXTENDED_MESSAGE]
 		fsm.extendedMessage.Store(peerExt)
 
-		// calculate HoldTime
-		// RFC 4271 P.13
-		// a BGP speaker MUST calculate the value of the Hold Timer
-		// by using the smaller of its configured Hold Time and the Hold Time
-		// received in the OPEN message.
-		holdTime := float64(body.HoldTime)
-		myHoldTime := conf.Timers.Config.HoldTime
-		if holdTime > myHoldTime {
-			conf.Timers.State.NegotiatedHoldTime = myHoldTime
-		} else {
-			conf.Timers.State.NegotiatedHoldTime = holdTime
-		}
-
-		keepalive := conf.Timers.Config.KeepaliveInterval
-		if n := conf.Timers.State.NegotiatedHoldTime; n < myHoldTime {
-			keepalive = n / 3
-		}
-		conf.Timers.State.KeepaliveInterval = keepalive
+		negotiateTimers(&conf, body)
 
 		// what an earlier session negotiated does not carry over
 		conf.GracefulRestart.State.Enabled = false
